@@ -141,6 +141,15 @@ def probe(tmp, root, locations, layout):
             check(resolved == "", "resolved-elsewhere", "no metadata anywhere but resolved to %r" % resolved)
         here = locations.get(resolved, {})
         mdir = os.path.join(root, resolved, "metadata") if resolved else os.path.join(root, "metadata")
+        # what a directory resolves to does not depend on the order in which its parts are asked for: a second object, asked in
+        # the opposite order, gives the same answers
+        mirror = must("open-second-object", productmd.compose.Compose, arg)
+        mirrored = {}
+        for kind in reversed(layout["access_order"]):
+            try:
+                mirrored[kind] = ("object", getattr(mirror, kind).dumps())
+            except Exception as exc:  # noqa
+                mirrored[kind] = ("error", type(exc).__name__)
         for kind in layout["access_order"]:
             candidates = here.get(kind, {})
             opened = []
@@ -158,6 +167,9 @@ def probe(tmp, root, locations, layout):
                 obj, err = None, exc
             finally:
                 builtins.open = real_open
+            answer = ("object", obj.dumps()) if err is None else ("error", type(err).__name__)
+            check(answer == mirrored[kind], "answer-depends-on-access-order", lambda: "%s: asked in the order %r this object gave %s, a second object asked in the opposite order gave %s" % (
+                kind, list(layout["access_order"]), answer[0] if answer[0] == "object" else answer, mirrored[kind][0] if mirrored[kind][0] == "object" else mirrored[kind]))
             if err is None:
                 # whatever order the candidates are probed in: a file that was opened and found unusable must surface,
                 # it must not be skipped silently in favour of another candidate
